@@ -106,15 +106,22 @@ theorem pend_ino_lt (fs : FS) (p : Bytes) (x : Inode) {i : Nat} (h : i < fs.inod
 theorem pend_ino_len (fs : FS) (p : Bytes) (x : Inode) : (fs.pend p x).ino fs.inodes.length = x :=
   ino_append_len _ _ _
 
-/-- A leaf inode: an empty directory or a regular file. -/
+/-- A leaf inode: an empty directory, or a regular file, symbolic link or special file. -/
 def LeafIno (x : Inode) : Prop :=
-  (x.kind = .dir ∧ x.children = some []) ∨ (x.kind = .reg ∧ x.children = none ∧ ∃ d, x.data = some d)
+  (x.kind = .dir ∧ x.children = some []) ∨
+  (x.kind ≠ .dir ∧ x.kind ≠ .link ∧ x.children = none ∧ (x.kind = .reg → ∃ d, x.data = some d))
 
 theorem TreeOK.pend {skip : List Bytes} {fs : FS} {p : Bytes} {x : Inode} (h : TreeOK skip fs)
-    (hp : Contained p) (hfresh : fs.get? p = none) (hx : x.name = p) (hleaf : LeafIno x) :
+    (hp : Contained p) (hfresh : fs.get? p = none) (hx : x.name = p) (hleaf : LeafIno x)
+    (hxl : x.kind = .sym → Contained x.link) :
     TreeOK (p :: skip) (fs.pend p x) := by
   have hpd : p ≠ dotP := by intro e; subst e; rw [h.root] at hfresh; cases hfresh
-  have hxok : InoOK x := ⟨hx ▸ hp, by rcases hleaf with ⟨hk, _⟩ | ⟨hk, _⟩ <;> simp [hk]⟩
+  have hxok : InoOK x := ⟨hx ▸ hp, by
+    rintro (hs | hl)
+    · exact hxl hs
+    · rcases hleaf with ⟨hk, _⟩ | ⟨_, hk, _⟩
+      · rw [hl] at hk; cases hk
+      · exact absurd hl hk⟩
   -- an old key keeps its index, and its inode
   have hold : ∀ k i, (fs.pend p x).get? k = some i → k ≠ p → fs.get? k = some i := by
     intro k i hk hne
@@ -137,14 +144,13 @@ theorem TreeOK.pend {skip : List Bytes} {fs : FS} {p : Bytes} {x : Inode} (h : T
       · exact hxok
   · rw [pend_get]; simp [hpd, h.root]
   · rw [pend_ino_lt fs p x (h.named _ 0 h.root).2]; exact h.rootDir
-  · intro i
-    rcases Nat.lt_trichotomy i fs.inodes.length with hlt | heq | hgt
-    · rw [pend_ino_lt fs p x hlt]; exact h.plain i
-    · subst heq; rw [pend_ino_len]
-      rcases hleaf with ⟨hk, _⟩ | ⟨hk, _⟩
-      · exact Or.inl hk
-      · exact Or.inr hk
-    · rw [ino_default (by simp [FS.pend]; omega)]; right; rfl
+  · intro i hi
+    by_cases hlt : i < fs.inodes.length
+    · obtain ⟨k, hk⟩ := h.keyed i hlt
+      exact ⟨k, (hkeep k i hk).1⟩
+    · have : i = fs.inodes.length := by simp [FS.pend] at hi; omega
+      subst this
+      exact ⟨p, by rw [pend_get]; simp⟩
   · intro k i hk
     by_cases hkp : k = p
     · subst hkp
@@ -161,9 +167,9 @@ theorem TreeOK.pend {skip : List Bytes} {fs : FS} {p : Bytes} {x : Inode} (h : T
       rw [pend_get] at hk
       simp at hk; subst hk
       rw [pend_ino_len]
-      rcases hleaf with ⟨hk, hc⟩ | ⟨hk, hc⟩
+      rcases hleaf with ⟨hk, hc⟩ | hleaf
       · exact Or.inl ⟨hk, [], hc⟩
-      · exact Or.inr ⟨hk, hc⟩
+      · exact Or.inr hleaf
     · have := hold k i hk hkp
       rw [(hkeep k i this).2]
       exact h.kinds k i this
@@ -182,7 +188,7 @@ theorem TreeOK.pend {skip : List Bytes} {fs : FS} {p : Bytes} {x : Inode} (h : T
       rw [pend_get] at hk
       simp at hk; subst hk
       rw [pend_ino_len] at hcs
-      rcases hleaf with ⟨_, hc'⟩ | ⟨_, hc', _⟩
+      rcases hleaf with ⟨_, hc'⟩ | ⟨_, _, hc', _⟩
       · rw [hc'] at hcs; cases hcs; simp at hc
       · rw [hc'] at hcs; cases hcs
     · have hko := hold k j hk hkp
@@ -211,7 +217,10 @@ theorem TreeOK.connect {skip : List Bytes} {fs : FS} {p : Bytes} {i j : Nat} {cs
   · exact h.inv.linkChild j i
   · rw [hget]; exact h.root
   · rw [hkind]; exact h.rootDir
-  · intro t; rw [hkind]; exact h.plain t
+  · intro t ht
+    rw [linkChild_length] at ht
+    obtain ⟨k, hk⟩ := h.keyed t ht
+    exact ⟨k, by rw [hget]; exact hk⟩
   · intro k t hk
     rw [hget] at hk
     rw [hname, linkChild_length]
